@@ -279,6 +279,9 @@ def newline_work(arg):
             if kv(tn) != kv(tb):
                 res["viol"].append(("newline/continuation/" + kind, "a line break after %s changes the token stream (it must continue the statement)" % kind,
                                     {"src": with_nl, "oracle": "newline after continuation token", "without_break": base}))
+            elif kv(ts) != kv(tn):
+                res["viol"].append(("newline/continuation-semicolon/" + kind, "after %s a `;` tokenises differently from a line break (newline equals `;`)" % kind,
+                                    {"src": with_semi, "oracle": "newline == ; after a continuation token", "with_newline": with_nl}))
             elif astdump.strip_pos(an) != astdump.strip_pos(ab):
                 res["viol"].append(("newline/continuation-tree/" + kind, "a line break after %s changes the parsed program" % kind,
                                     {"src": with_nl, "oracle": "newline after continuation token", "without_break": base}))
